@@ -268,12 +268,13 @@ Print Assumptions C13_translate_lands_inside.
 
 Theorem C13_translate_roundtrip : forall cv0 cv1 r0 r1 side p,
   conv_ok cv0 -> conv_ok cv1 -> same_syntax cv0 cv1 -> abs_path cv0 r0 -> abs_path cv1 r1 ->
-  cv_win cv0 = false -> cv_win cv1 = false ->
   is_subpath (cv_of cv0 cv1 (negb side)) (root_of r0 r1 (negb side)) p false <> NotSub ->
-  exists q back,
+  exists q,
     translate cv0 cv1 r0 r1 side p = Some q /\
-    translate cv0 cv1 r0 r1 (negb side) q = Some back /\
-    paths_match (cv_of cv0 cv1 (negb side)) back p false = true.
+    (dl (cv_of cv0 cv1 side) q = false ->
+     exists back,
+       translate cv0 cv1 r0 r1 (negb side) q = Some back /\
+       paths_match (cv_of cv0 cv1 (negb side)) back p false = true).
 Proof. exact translate_roundtrip. Qed.
 Print Assumptions C13_translate_roundtrip.
 
